@@ -31,7 +31,9 @@ class RateOfChange(Case):
         e.n = mk.length("n")
         e.m = mk.length("m") if self.params["lens"] == "differ" else e.n
         e.x = mk.series("x", e.n)
-        e.t = mk.times("t", e.m)
+        # order='any': stamps in any order, repeated stamps included (only the C02 clauses are claimed there:
+        # C10 quantifies over strictly increasing axes, C02 over every series)
+        e.t = mk.times("t", e.m, increasing=self.params.get("order") != "any")
         e.thr = mk.real("thr")
         mk.assume(alg.ge(pval(e.thr), 0))  # a threshold on an absolute rate is non-negative
         return e
@@ -64,6 +66,8 @@ class RateOfChange(Case):
             "missing_is_missing": alg.implies(x.nan(k), alg.eq(fl, MISS)),
             "missing_only_if_needed": alg.implies(alg.eq(fl, MISS), x.nan(k)),
         }
+        if self.params.get("order") == "any":
+            del out["flag_by_rate"]
         out.update(basic_shape_clauses(res, k, e.n))
         return out
 
@@ -73,7 +77,9 @@ class RateOfChange(Case):
         return {"one_flag_per_element": alg.eq(res.n, e.n) if res.is_array else False}
 
     def grid(self, tier, rng):
-        steps = [[0, 1, 2, 3, 4, 5], [10, 12, 16, 17, 3600, 90000], [5, 4, 3, 2, 1, 0]]
+        # the last two: stamps out of order in a rotated arrangement (the sorting permutation is not its own
+        # inverse) - the statement is about records in the order given, whatever the stamps say
+        steps = [[0, 1, 2, 3, 4, 5], [10, 12, 16, 17, 3600, 90000], [5, 4, 3, 2, 1, 0], [20, 0, 10, 50, 30, 40], [10, 20, 30, 0, 50, 40]]
         for xs in series_grid(4 if tier == "quick" else 5):
             for st in steps:
                 for thr in (0, H, 1, 5):
@@ -87,6 +93,10 @@ class RateOfChange(Case):
                                 yield w
                     else:
                         yield v
+        if self.params.get("order") == "any":
+            for xs, ts in (([None, 2, 3], [20, 0, 10]), ([5, None, 6, 7], [10, 20, 30, 0]), ([1, 2, None, 4, None], [30, 40, 0, 10, 20]), ([None, 1, 9, 1], [40, 10, 20, 30])):
+                for thr in (0, H, 5):
+                    yield {"n": len(xs), "x": list(xs), "t": list(ts), "thr": thr, "keep": 1}
         if self.params["lens"] == "same":
             # float32 data whose differences float32 cannot hold (2**24 + 2 next to 1): the exact step is
             # 16777217, in float32 arithmetic it would be 16777216; thresholds between and on the two
@@ -205,4 +215,4 @@ class Speed(Case):
 
 
 def cases():
-    return [RateOfChange(lens="same"), RateOfChange(lens="differ"), Speed(lens="same"), Speed(lens="lat"), Speed(lens="t")]
+    return [RateOfChange(lens="same"), RateOfChange(lens="same", order="any"), RateOfChange(lens="differ"), Speed(lens="same"), Speed(lens="lat"), Speed(lens="t")]
